@@ -10,6 +10,19 @@ import os, itertools, json
 import fw
 
 ALPHA = 'ACGTN'
+GETITEM = {'op': 'getitem'}     # parser[alias]  (__getitem__; loads a pending alias)
+COUNT = {'op': 'count'}         # getTargetCount(alias)  (does not load)
+
+
+def enc_op(q):
+    return [0, q] if isinstance(q, str) else ([1] if q['op'] == 'getitem' else [2])
+
+
+def expected_items(lines):
+    d = {}
+    for b, i in lines:
+        d[b] = i
+    return [[b, i] for b, i in d.items()]
 BIG = 10 ** 6
 SHIPPED_DIRS = ('barcodes', 'indices')
 
@@ -254,6 +267,21 @@ class Prop(fw.PropBase):
             r.shuffle(qs)       # the query order matters only for the lazy state machine
         return qs, exhaustive
 
+    def with_accessors(self, qs, allow_count_first=True):
+        """interleave the accessors with the lookups: what is touched FIRST on a (possibly pending) alias
+        is a lookup, parser[alias] or getTargetCount(alias)"""
+        r = self.rng
+        pre = r.choice([[], [], [GETITEM], [GETITEM], [COUNT], [COUNT, GETITEM], [GETITEM, COUNT], [COUNT, COUNT]])
+        if not allow_count_first and pre and pre[0] is COUNT:
+            pre = [GETITEM] + pre
+        out = list(qs)
+        for _ in range(r.randint(0, 3)):
+            out.insert(r.randint(0, len(out)), r.choice([GETITEM, COUNT]))
+        if not allow_count_first:
+            while out and not pre and out[0] is COUNT:
+                out.pop(0)
+        return pre + out
+
     def cap(self):
         return 5000 if self.tier == 'quick' else 14000
 
@@ -285,6 +313,7 @@ class Prop(fw.PropBase):
                 alias = 'w%d_%d' % (gi, ai)
                 files.append({'name': alias + suffix, 'content': content, 'gz': gz})
                 qs, exhaustive = self.queries_for(bcs, k, exh if L <= exh else 0)
+                qs = self.with_accessors(qs)
                 queries.append([alias, qs])
                 aliases.append(alias)
                 percase.append({'alias': alias, 'lines': lines, 'k': k, 'queries': qs, 'tab': tab, 'fmt': fmt,
@@ -313,6 +342,9 @@ class Prop(fw.PropBase):
             adds = [[b, ('TEST%d' % i) if n % 2 else i] for i, b in enumerate(bcs)]
             lines = [(b, tab.of_token(t)) for b, t in adds]
             qs, ex = self.queries_for(bcs, k, 4)
+            # addBarcode + expand(k) has happened before the history starts: in the model that is the first
+            # loading operation of the lazy path, so getTargetCount may not come first
+            qs = self.with_accessors(qs, allow_count_first=False)
             api.append({'k': k, 'adds': adds, 'queries': qs})
             # expand(k) is called explicitly whatever k: that is the model's lazy path (load + expand k)
             cases.append({'alias': 'user', 'lines': lines, 'k': k, 'queries': qs, 'tab': tab, 'lazy': True,
@@ -340,6 +372,8 @@ class Prop(fw.PropBase):
             if quick:
                 small = [a for a in usable if n_items([b for b, _ in parsed[a]], 1) <= self.cap()]
                 pick = [r.choice(small or usable), r.choice(usable)]
+                if pick[0] == pick[1]:
+                    pick = pick[:1]
                 plan.append((d, 1, '*', pick, parsed))
                 plan.append((d, 2, '*', pick[:1], parsed))
             else:
@@ -370,6 +404,7 @@ class Prop(fw.PropBase):
                         for p in (r.sample(diff, len(diff) // 2) if diff else []):
                             m[p] = b1[p]
                         qs.append(''.join(m))
+                qs = self.with_accessors(qs)
                 queries.append([a, qs])
                 cases.append({'alias': a, 'lines': lines, 'k': k, 'queries': qs, 'tab': tab, 'lazy': lazy == '*',
                               'fmt': 'shipped:' + d, 'gz': False, 'flavour': 'shipped', 'exhaustive': False,
@@ -397,6 +432,10 @@ class Prop(fw.PropBase):
         if a is None:
             return []
         if isinstance(a, dict):
+            if 'items' in a:
+                return [-2, [[[ord(ch) for ch in b], c['tab'].of_impl(i)] for b, i in (a['items'] or [])]]
+            if 'count' in a:
+                return [-3] + list(a['count'])
             return ['error', a.get('error')]
         idx, bc, d = a
         if not isinstance(bc, str) or not isinstance(d, int) or isinstance(d, bool):
@@ -405,7 +444,7 @@ class Prop(fw.PropBase):
 
     @staticmethod
     def model_input(c):
-        return [[[b, i] for b, i in c['lines']], c['k'], c['queries'], 1 if c['lazy'] else 0]
+        return [[[b, i] for b, i in c['lines']], c['k'], [enc_op(q) for q in c['queries']], 1 if c['lazy'] else 0]
 
     def impl_answers(self, res, c):
         kind, i, j = c['src']
@@ -444,6 +483,7 @@ class Prop(fw.PropBase):
         distinct = set()
         wf_q = 0
         oracle_dis = []
+        n_acc = {}
         for c in cases:
             impl = self.impl_answers(res, c)
             wl_wf = all(in_alpha(b) for b, _ in c['lines'])
@@ -452,7 +492,21 @@ class Prop(fw.PropBase):
             hist_fl[c['flavour']] = hist_fl.get(c['flavour'], 0) + 1
             hist_k[str(c['k'])] = hist_k.get(str(c['k']), 0) + len(c['queries'])
             wl_hash = fw.canon_hash([[b, i] for b, i in c['lines']] + [c['k']])
+            loaded = not c['lazy']
             for q, a in zip(c['queries'], impl):
+                if not isinstance(q, str):
+                    n_acc[q['op']] = n_acc.get(q['op'], 0) + 1
+                    if not loaded:
+                        n_acc['first_touch_' + q['op']] = n_acc.get('first_touch_' + q['op'], 0) + 1
+                    if q['op'] == 'getitem':
+                        loaded = True
+                        want = [-2, [[[ord(ch) for ch in b], i] for b, i in expected_items(c['lines'])]]
+                        if self.canon_impl(c, a) != want:
+                            oracle_dis.append((c, q, a, expected_items(c['lines'])))
+                    continue
+                if not loaded:
+                    n_acc['first_touch_lookup'] = n_acc.get('first_touch_lookup', 0) + 1
+                loaded = True
                 n_eval += 1
                 hist_L[str(len(q))] = hist_L.get(str(len(q)), 0) + 1
                 pre = wl_wf and in_alpha(q)
@@ -489,6 +543,9 @@ class Prop(fw.PropBase):
             'outcome_histogram': outcome, 'k_histogram_lookups': hist_k, 'query_length_histogram': hist_L,
             'file_format_histogram': hist_fmt, 'whitelist_flavour_histogram': hist_fl,
             'lazy_whitelists': sum(1 for c in cases if c['lazy']),
+            'accessor_operations_in_histories': n_acc,
+            'history_rule': 'each whitelist is driven by one history: lookups interleaved with parser[alias] (__getitem__) and '
+                            'getTargetCount(alias); first_touch_* counts what touched a PENDING (lazy) alias first',
             'precondition_hit_rate': round(wf_q / max(1, n_eval), 4),
             'wf_whitelists': sum(1 for c in cases if all(in_alpha(b) for b, _ in c['lines'])),
             'equal_length_nodup_whitelists': sum(1 for c in cases if len(set(len(b) for b, _ in c['lines'])) <= 1
@@ -513,7 +570,7 @@ class Prop(fw.PropBase):
             return
         # --- model vs implementation
         mcases = [c for c in cases if c.get('model', True)]
-        mout = par_model(0, [self.model_input(c) for c in mcases], [n_items([b for b, _ in c['lines']], c['k']) ** 2 // 1000 + len(c['queries']) for c in mcases])
+        mout = par_model(5, [self.model_input(c) for c in mcases], [n_items([b for b, _ in c['lines']], c['k']) ** 2 // 1000 + len(c['queries']) for c in mcases])
         dis, pairs2 = [], []
         validated = 0
         for c, mo in zip(mcases, mout):
@@ -528,12 +585,15 @@ class Prop(fw.PropBase):
                     dis.append({'case': c, 'q': q, 'model': m, 'impl': raw})
             pairs2.append((c, ci))
         # --- the theorem's boolean specification on the implementation's answers (where the precondition holds)
-        pre = fw.run_model('C03', 1, [self.model_input(c) for c in mcases])
+        pre = fw.run_model('C03', 1, [[[[b, i] for b, i in c['lines']], c['k'], [q for q in c['queries'] if isinstance(q, str)], 0]
+                                      for c in mcases])
         spec_in, spec_meta = [], []
         for (c, ci), p in zip(pairs2, pre):
             if p[0] != 1:
                 continue
-            idx = [j for j, f in enumerate(p[3]) if f == 1 and ci[j] == [] or (f == 1 and ci[j] and isinstance(ci[j][0], list))]
+            qpos = [j for j, q in enumerate(c['queries']) if isinstance(q, str)]
+            flags = dict(zip(qpos, p[3]))
+            idx = [j for j in qpos if flags.get(j) == 1 and (ci[j] == [] or (ci[j] and isinstance(ci[j][0], list)))]
             if not idx:
                 continue
             inp = [[[b, i] for b, i in c['lines']], c['k'], [c['queries'][j] for j in idx], 0]
@@ -590,10 +650,10 @@ class Prop(fw.PropBase):
         for c, mo in small[:100]:
             idx = sorted(self.rng.sample(range(len(c['queries'])), min(6, len(c['queries']))))
             if c['lazy']:
-                idx = list(range(min(6, len(c['queries']))))      # lazy answers depend on the prefix
-            inp = [[[b, i] for b, i in c['lines']], c['k'], [c['queries'][j] for j in idx], 1 if c['lazy'] else 0]
+                idx = list(range(min(8, len(c['queries']))))      # lazy answers depend on the prefix
+            inp = [[[b, i] for b, i in c['lines']], c['k'], [enc_op(c['queries'][j]) for j in idx], 1 if c['lazy'] else 0]
             pairs.append((inp, [mo[j] for j in idx]))
-        ok, nm, log = fw.vm_crosscheck('C03', 0, pairs)
+        ok, nm, log = fw.vm_crosscheck('C03', 5, pairs)
         self.cov['vm_compute_crosscheck'] = {'cases': len(pairs), 'mismatches': nm}
         if not ok:
             raise fw.Broken('extraction', 'vm_compute and extracted model disagree: ' + log[-800:])
@@ -606,16 +666,18 @@ class Prop(fw.PropBase):
             self.dis, self.cdis = dis, cdis
             first = None
             if dis:
-                d = min(dis, key=lambda x: (len(x['case']['lines']), len(x['q'] or '')))
-                first = 'lookup(%r) on whitelist %r k=%d lazy=%s (%s): model %r, implementation %r' % (
-                    d['q'], d['case']['lines'][:8], d['case']['k'], d['case']['lazy'], d['case']['fmt'], d['model'], d['impl'])
+                d = min(dis, key=lambda x: (len(x['case']['lines']), len(x['q']) if isinstance(x['q'], str) else 0))
+                pos = d['case']['queries'].index(d['q']) if d['q'] in d['case']['queries'] else 0
+                before = [x['op'] for x in d['case']['queries'][:pos] if not isinstance(x, str)]
+                first = '%r (accessors before it in the history: %r) on whitelist %r k=%d lazy=%s (%s): model %r, implementation %r' % (
+                    d['q'], before, d['case']['lines'][:8], d['case']['k'], d['case']['lazy'], d['case']['fmt'], d['model'], str(d['impl'])[:300])
             elif cdis:
                 first = 'hamming_circle(%r, %d): model %r implementation %r' % (cdis[0]['s'], cdis[0]['n'], cdis[0]['model'][:12], str(cdis[0]['impl'])[:200])
             elif spec_fail:
                 first = 'specb false on the implementation answer for %r, whitelist %r' % (spec_fail[0][1], spec_fail[0][0]['lines'][:8])
             else:
                 c, q, a, exp = oracle_dis[0]
-                first = 'lookup(%r): implementation %r, specification %r' % (q, a, exp)
+                first = '%r: implementation %r, specification %r' % (q, str(a)[:300], str(exp)[:300])
             raise fw.Broken('correspondence', 'model/specification and implementation disagree: %d lookups, %d circles, %d specb, '
                             '%d python-spec; first: %s' % (len(dis), len(cdis), len(spec_fail), len(oracle_dis), first))
 
@@ -627,11 +689,22 @@ class Prop(fw.PropBase):
             self.payload, self.cases, circle = self.build()
             self.res = fw.run_impl('impl_c03.py', self.payload)
         fails = []
+        acc_seen = set()
         for c in self.cases:
             if not all(in_alpha(b) for b, _ in c['lines']):
                 continue
             impl = self.impl_answers(self.res, c)
             for pos, (q, a) in enumerate(zip(c['queries'], impl)):
+                if not isinstance(q, str):
+                    if q['op'] == 'getitem':
+                        want = [-2, [[[ord(ch) for ch in b], i] for b, i in expected_items(c['lines'])]]
+                        if self.canon_impl(c, a) != want and 'getitem' not in acc_seen:
+                            acc_seen.add('getitem')
+                            self.witnesses.append({'key': 'getitem', 'what': 'parser[alias] on whitelist %r returned %s; expected the '
+                                                   'barcode -> index mapping %r' % (c['lines'][:12], str(a)[:300], expected_items(c['lines'])[:12]),
+                                                   'input': {'lines': c['lines'], 'k': c['k'], 'lazy': c['lazy'], 'format': c['fmt'],
+                                                             'history_prefix': c['queries'][:pos + 1]}, 'impl': a})
+                    continue
                 if not in_alpha(q):
                     continue
                 exp = oracle(c['lines'], c['k'], q)
@@ -659,14 +732,19 @@ class Prop(fw.PropBase):
                 continue
             seen.add(cls)
             lines, k = self.shrink(c, q) if len(seen) <= 2 else (c['lines'], c['k'])
+            before = [x['op'] for x in c['queries'][:pos] if not isinstance(x, str)]
+            first_touch = next((x if isinstance(x, str) else x['op'] for x in c['queries'][:pos + 1]
+                                if isinstance(x, str) or x['op'] == 'getitem'), None)
             via = {'file': 'barcode file (%s%s), %s' % (c['fmt'], ', gz' if c['gz'] else '', 'lazyLoad' if c['lazy'] else 'eager'),
                    'api': 'addBarcode + expand(%d)' % c['k'], 'shipped': 'shipped whitelist %s (%s)' % (c['alias'], 'lazyLoad' if c['lazy'] else 'eager')}[c['kind']]
             self.witnesses.append({
                 'key': 'lookup:' + cls,
                 'what': 'getIndexCorrectedBarcodeAndHammingDistance(%r) with hammingDistanceExpansion=%d on whitelist %r '
-                        '[%s] returned %r; unique nearest whitelisted barcode within %d: %r' % (q, c['k'], lines[:12], via, a, c['k'], exp),
+                        '[%s; accessors called on the alias before this lookup: %r] returned %r; unique nearest whitelisted barcode '
+                        'within %d: %r' % (q, c['k'], lines[:12], via, before, a, c['k'], exp),
                 'input': {'lines': lines, 'k': k, 'query': q, 'lazy': c['lazy'], 'format': c['fmt'],
-                          'position_in_query_sequence': pos},
+                          'position_in_history': pos, 'accessors_before': before,
+                          'first_loading_operation_of_history': first_touch},
                 'impl': a, 'expected': exp})
             if len(seen) >= 4:
                 break
